@@ -136,7 +136,7 @@ def configure_v2(config: dict[str, Any]) -> None:
     if "filename" not in config["grid"]:
         filename = Path(config["forcing"]["filename"])
         # glob if necessary and use first file
-        if any(c in str(filename) for c in "*?["):
+        if any(c in filename.name for c in "*?["):
             directory = filename.parent
             flist = list(directory.glob(filename.name))
             if flist:
@@ -218,7 +218,7 @@ def configure_v1(config: dict[str, Any]) -> dict[str, Any]:
     if not conf2["grid"]["filename"] and conf2["forcing"]["filename"]:
         filename = Path(conf2["forcing"]["filename"])
         # glob if necessary and use first file
-        if any(c in str(filename) for c in "*?["):
+        if any(c in filename.name for c in "*?["):
             directory = filename.parent
             filename = sorted(directory.glob(filename.name))[0]
         conf2["grid"]["filename"] = filename
